@@ -21,7 +21,9 @@ import Proofs.OpGuardSplit
 import Proofs.OpGuardWrap
 import Proofs.OpGuardLift
 import Proofs.OpGuardSetBlock
+import Proofs.OpGuardSbtWalk
 import Proofs.OpGuardB
+import PM.OpGuardNode
 import Props.C01
 import Props.C12
 import Props.C11
@@ -2093,7 +2095,10 @@ def retypeNodeOk (S : Schema) (d : Node) (pos : Nat) (ty : Option TypeId) (marks
       pair-alignment;
     * `set_node_markup` of a non-leaf node to a non-leaf type (the complement is finding C04-leaf-retype
       and the Fitter path) with a canonical mark set: pair-alignment;
-    * every other operation: `FamilyGuard` of the steps it recorded. -/
+    * every other operation: `FamilyGuard` of the steps it recorded — discharged further down for
+      `set_block_type` to a plain type (`setBlockType_residual`: same-type guard and pair-alignment left),
+      the node-level operations (`nodeOps_residual`: `NodeOpGuard` on the operation's arguments), deletions
+      (`delete_residual`) and, in part, `replace` with a non-empty slice (`replace_residual_partial`). -/
 def OpResidual (S : Schema) (op : Op) (tr tr1 : Tr) : Prop :=
   match op with
   | .lift a b depth _ => nodeRangeEnds tr.doc a b depth ∧
@@ -2742,5 +2747,845 @@ theorem delete_residual (S : Schema) (hdet : PM.C11.detB S = true) (hleaf : PM.F
     | docAttr _ _ => exact hs
     | addNodeMark _ _ => exact hs
     | removeNodeMark _ _ => exact hs
+
+/-! ### `set_block_type` to a plain type as a whole operation (work package `wk-sbt`) -/
+
+/-- **one converting visit of `set_block_type`**: the history it records — the `RemoveMarkStep`s of
+    `clear_incompatible`, its `ReplaceStep`s, the retype step — replays, has the shapes `SbtShape`, and
+    satisfies `FamilyGuard` step by step once the document the visit starts from is valid and in normal form,
+    given the same-type guard and pair-alignment of the recorded steps -/
+theorem sbtVisit_guard (S : Schema) (htr : compatTransB S = true) (hts : TextLoop S)
+    (ty : TypeId) (attrs : Attrs) (hty : (S.nodeType ty).isLeaf = false)
+    (st st1 st2 : PSt) (node nn : Node) (p e : Nat)
+    (hlen : st.tr.steps.length = st.tr.docs.length)
+    (hnl : node.isLeaf = false)
+    (hna : st.tr.doc.nodeAt p = .ok (some node))
+    (hall : st.stepAll S (clearRm S ty node.kids 0 (p + 1) ++
+      ((clearEdits S ty node.kids 0 (p + 1)).map Edit.step).reverse) = .ok st1)
+    (hnn : S.createNode ty attrs node.marks = .ok nn)
+    (htok : (ftoks st1.tr.doc.kids)[p]? = some node.headTok)
+    (hn1 : fnorm st1.tr.doc.kids = true)
+    (hs : st1.step S (retypeStep p e nn) = .ok st2)
+    (hleaf : ∀ c ∈ node.kids, c.isLeaf = true ∨ badMarks S ty c.marks = [])
+    (bad : Mark → Prop) (hbad : ∀ c ∈ node.kids, ∀ x ∈ badMarks S ty c.marks, bad x) :
+    ∃ h2, st2.tr.hist = st.tr.hist ++ h2 ∧ st2.tr.steps.length = st2.tr.docs.length ∧
+      histNext h2 st2.tr.doc = st.tr.doc ∧ ReplayChain S h2 st2.tr.doc ∧
+      HistAll (fun s d _ => SbtShape bad s d) h2 st2.tr.doc ∧
+      (FamilyInv S st.tr.doc →
+        HistAll (fun s d d' => s.sameTypeGuard S d ∧ s.undoAligned d') h2 st2.tr.doc →
+        HistAll (FamilyGuard S) h2 st2.tr.doc) := by
+  cases node with
+  | text => simp [Node.isLeaf] at hnl
+  | leaf => simp [Node.isLeaf] at hnl
+  | elem t a m kids =>
+  simp only [Node.kids_elem, Node.marks_elem, Node.headTok_elem] at hall hnn htok hleaf hbad
+  obtain ⟨a1, a2, a3⟩ := PSt.stepAll_hist S _ st st1 hlen hall
+  obtain ⟨d1, r1, r2⟩ := applyAll_append S _ _ _ _ a3
+  obtain ⟨b1, b2, b3⟩ := Tr.step_hist' a2 (PSt.step_tr' hs)
+  rw [stepsHist_append S _ _ _ d1 r1] at a1
+  generalize hrm : clearRm S ty kids 0 (p + 1) = rm at *
+  generalize hed : ((clearEdits S ty kids 0 (p + 1)).map Edit.step).reverse = ed at *
+  obtain ⟨n1, c1, _⟩ := stepsHist_spec S rm st.tr.doc d1 r1
+  obtain ⟨n2, c2, _⟩ := stepsHist_spec S ed d1 st1.tr.doc r2
+  -- the node at `p` after `clear_incompatible`
+  obtain ⟨k, hk⟩ := nodeAtKids_of_op t a m st1.tr.doc.kids p (fnormKids_of_fnorm hn1) htok
+  obtain ⟨a', rfl⟩ := createNode_elem S ty attrs m nn hty hnn
+  have he : e = p + (Node.elem t a m k).size :=
+    retype_applied_end S st1.tr.doc st2.tr.doc _ _ p e hk rfl rfl b2
+  have hx : histNext [(retypeStep p e (.elem ty a' (setFrom m) []), st1.tr.doc)] st2.tr.doc = st1.tr.doc := rfl
+  have hB : histNext (S.stepsHist ed d1 ++ [(retypeStep p e (.elem ty a' (setFrom m) []), st1.tr.doc)])
+      st2.tr.doc = d1 := by rw [histNext_append, hx, n2]
+  refine ⟨S.stepsHist rm st.tr.doc ++
+    (S.stepsHist ed d1 ++ [(retypeStep p e (.elem ty a' (setFrom m) []), st1.tr.doc)]), ?_, b3, ?_, ?_, ?_, ?_⟩
+  · rw [b1, a1]; simp only [List.append_assoc]
+  · rw [histNext_append, hB, n1]
+  · exact (histAll_append _ _ _ _).mpr ⟨by rw [hB]; exact c1,
+      (histAll_append _ _ _ _).mpr ⟨by rw [hx]; exact c2, ⟨b2, trivial⟩⟩⟩
+  · refine (histAll_append _ _ _ _).mpr ⟨?_, (histAll_append _ _ _ _).mpr ⟨?_, ⟨?_, trivial⟩⟩⟩
+    · exact histAll_mono (fun s d d' h => .inl h) _ _
+        (histAll_stepsHist_mem S (fun s => ∃ a b x, s = Step.removeMark a b x ∧ bad x) rm _ _
+          (by
+            rw [← hrm]
+            intro s hs'
+            obtain ⟨a, b, x, e', c, hc, hx⟩ := clearRm_isRm S ty kids 0 (p + 1) s hs'
+            exact ⟨a, b, x, e', hbad c hc x hx⟩))
+    · refine histAll_mono (fun s d d' h => .inr (.inl h)) _ _
+        (histAll_stepsHist_mem S
+          (fun s => ∃ a b c, s = Step.replace a b ⟨c, 0, 0⟩ false ∧ (ftoks c).all Tok.noHigh = true) ed _ _ ?_)
+      intro s hs'
+      rw [← hed] at hs'
+      simp only [List.mem_reverse, List.mem_map] at hs'
+      obtain ⟨ed1, hed1, rfl⟩ := hs'
+      exact ⟨_, _, _, rfl, clearEdits_bmp S ty kids 0 (p + 1) ed1 hed1⟩
+    · exact .inr (.inr ⟨p, .elem t a m k, ty, a', setFrom m, by rw [he], hk, rfl⟩)
+  · intro hI hR
+    obtain ⟨RA, hR'⟩ := (histAll_append _ _ _ _).mp hR
+    obtain ⟨RB, Rx, _⟩ := (histAll_append _ _ _ _).mp hR'
+    rw [hB] at RA
+    rw [hx] at RB
+    have hvN : S.checkNode (.elem t a m kids) = true :=
+      nodeAtKids_valid S st.tr.doc.kids p _ (checkNode_kids hI.1) hna
+    rw [checkNode_elem] at hvN
+    simp only [Bool.and_eq_true] at hvN
+    obtain ⟨pg, _⟩ := clearRm_planGuard S hts ty st.tr.doc d1 (.elem t a m kids) p 0 hI.1 hna
+      hleaf (by rw [Node.kids_elem, hrm]; exact r1)
+    simp only [Node.kids_elem, hrm] at pg
+    have gA : HistAll (FamilyGuard S) (S.stepsHist rm st.tr.doc) d1 :=
+      histAll_mono (fun s d d' ⟨hp, ht, ha⟩ => planGuard_family S s d d' hp ht ha) _ _
+        (histAll_and _ _ pg RA)
+    have hI1 : FamilyInv S d1 :=
+      (chain_of_invariant S (FamilyInv S) (FamilyGuard S) (family_step S htr hts) _ d1
+        (by rw [n1]; exact hI) c1 gA).2
+    have gB : HistAll (FamilyGuard S) (S.stepsHist ed d1) st1.tr.doc :=
+      histAll_mono (fun s d d' ⟨hm, _, ha⟩ =>
+          clearEditsGuard_family S ty kids 0 (p + 1) hvN.2 s d d' (by rw [hed]; exact hm) ha) _ _
+        (histAll_and _ _ (histAll_stepsHist_mem S (· ∈ ed) ed d1 st1.tr.doc (fun _ h => h)) RB)
+    have hI2 : FamilyInv S st1.tr.doc :=
+      (chain_of_invariant S (FamilyInv S) (FamilyGuard S) (family_step S htr hts) _ st1.tr.doc
+        (by rw [n2]; exact hI1) c2 gB).2
+    have gx := setBlockTypeGuard_family S st1.tr.doc st2.tr.doc (.elem t a m k) _ p e ty attrs hI2.1 hI2.2 hk rfl
+      hty hvN.1.2 hnn b2 Rx.2
+    exact (histAll_append _ _ _ _).mpr ⟨by rw [hB]; exact gA,
+      (histAll_append _ _ _ _).mpr ⟨by rw [hx]; exact gB, ⟨gx, trivial⟩⟩⟩
+
+/-- the marks `set_block_type(from, to, type)` strips: those a child of a visited textblock carries and the
+    new type forbids -/
+def sbtBad (S : Schema) (d : Node) (f t : Nat) (ty : TypeId) (x : Mark) : Prop :=
+  ∃ v ∈ S.docVisits d f t, S.isTextblockN v.node = true ∧ ∃ c ∈ v.node.kids, x ∈ badMarks S ty c.marks
+
+/-- what is asked of the visits of `nodes_between(from, to)` over the document `set_block_type` starts from:
+    a visited textblock is a node with content (true of valid documents of schemas whose types with inline
+    content are no leaf types), and each of its children that carries a mark the new type forbids is a text
+    or a leaf (no inline node with content and forbidden marks) -/
+def sbtBlocksOk (S : Schema) (d : Node) (f t : Nat) (ty : TypeId) : Prop :=
+  ∀ v ∈ S.docVisits d f t, S.isTextblockN v.node = true →
+    v.node.isLeaf = false ∧ ∀ c ∈ v.node.kids, c.isLeaf = true ∨ badMarks S ty c.marks = []
+
+/-- **the walk of `set_block_type`**: the history the fold of the visit callback records -/
+theorem sbt_fold_guard (S : Schema) (htr : compatTransB S = true) (hts : TextLoop S)
+    (ty : TypeId) (attrs : Attrs) (mf : Nat) (L0 : List Tok)
+    (hty : (S.nodeType ty).isLeaf = false) (hp : S.plainType ty = true) (bad : Mark → Prop) :
+    ∀ (vs : List NV) (st : PSt) (skip : Nat) (X : List Tok) (st' : PSt) (skip' : Nat),
+    (∀ v ∈ vs, (L0.drop v.pos).take v.node.size = v.node.toks ∧ v.node.norm = true ∧
+      (S.isTextblockN v.node = true →
+        v.node.isLeaf = false ∧ (∀ c ∈ v.node.kids, c.isLeaf = true ∨ badMarks S ty c.marks = []) ∧
+        ∀ c ∈ v.node.kids, ∀ x ∈ badMarks S ty c.marks, bad x)) →
+    SbtInv L0 mf st skip X → st.tr.steps.length = st.tr.docs.length →
+    vs.foldl (setBlockTypeVisit S ty attrs mf) (.ok (st, skip)) = .ok (st', skip') →
+    ∃ h2, st'.tr.hist = st.tr.hist ++ h2 ∧ st'.tr.steps.length = st'.tr.docs.length ∧
+      histNext h2 st'.tr.doc = st.tr.doc ∧ ReplayChain S h2 st'.tr.doc ∧
+      HistAll (fun s d _ => SbtShape bad s d) h2 st'.tr.doc ∧
+      (FamilyInv S st.tr.doc →
+        HistAll (fun s d d' => s.sameTypeGuard S d ∧ s.undoAligned d') h2 st'.tr.doc →
+        HistAll (FamilyGuard S) h2 st'.tr.doc)
+  | [], st, skip, X, st', skip', _, _, hlen, h => by
+    simp only [List.foldl_nil, Except.ok.injEq, Prod.mk.injEq] at h
+    obtain ⟨rfl, rfl⟩ := h
+    exact ⟨[], by simp, hlen, rfl, trivial, trivial, fun _ _ => trivial⟩
+  | v :: vs, st, skip, X, st', skip', hvs, hI, hlen, h => by
+    have hv := hvs v (by simp)
+    have hrest : ∀ w ∈ vs, (L0.drop w.pos).take w.node.size = w.node.toks ∧ w.node.norm = true ∧
+        (S.isTextblockN w.node = true →
+          w.node.isLeaf = false ∧ (∀ c ∈ w.node.kids, c.isLeaf = true ∨ badMarks S ty c.marks = []) ∧
+          ∀ c ∈ w.node.kids, ∀ x ∈ badMarks S ty c.marks, bad x) :=
+      fun w hw => hvs w (by simp [hw])
+    simp only [List.foldl_cons] at h
+    cases h1 : setBlockTypeVisit S ty attrs mf (.ok (st, skip)) v with
+    | error e => rw [h1, sbt_foldl_error] at h; simp at h
+    | ok r =>
+      obtain ⟨st2, skip2⟩ := r
+      rw [h1] at h
+      rcases sbtVisit_cases S ty attrs mf L0 hty hp st st2 skip skip2 X v hI hv.1 hv.2.1
+          (fun htb => (hv.2.2 htb).1) h1 with
+        ⟨rfl, rfl⟩ | ⟨st1, nn, X2, p, e, htb, hnl, hna, hall, hnn, htok, hn1, hs, hI2⟩
+      · exact sbt_fold_guard S htr hts ty attrs mf L0 hty hp bad vs st2 skip2 X st' skip' hrest hI hlen h
+      · obtain ⟨ha, e1, l1, n1, r1, s1, g1⟩ := sbtVisit_guard S htr hts ty attrs hty st st1 st2 v.node nn p e hlen
+          hnl hna hall hnn htok hn1 hs (hv.2.2 htb).2.1 bad (hv.2.2 htb).2.2
+        obtain ⟨hb, e2, l2, n2, r2, s2, g2⟩ :=
+          sbt_fold_guard S htr hts ty attrs mf L0 hty hp bad vs st2 skip2 X2 st' skip' hrest hI2 l1 h
+        refine ⟨ha ++ hb, by rw [e2, e1, List.append_assoc], l2, by rw [histNext_append, n2, n1],
+          (histAll_append _ ha hb _).mpr ⟨by rw [n2]; exact r1, r2⟩,
+          (histAll_append _ ha hb _).mpr ⟨by rw [n2]; exact s1, s2⟩, fun hInv hR => ?_⟩
+        obtain ⟨Ra, Rb⟩ := (histAll_append _ ha hb _).mp hR
+        rw [n2] at Ra
+        have ga := g1 hInv Ra
+        have hInv2 : FamilyInv S st2.tr.doc :=
+          (chain_of_invariant S (FamilyInv S) (FamilyGuard S) (family_step S htr hts) ha st2.tr.doc
+            (by rw [n1]; exact hInv) r1 ga).2
+        exact (histAll_append _ ha hb _).mpr ⟨by rw [n2]; exact ga, g2 hInv2 Rb⟩
+
+/-- **`set_block_type(from, to, type, attrs)` to a plain type, as a whole operation**: what it appended to the
+    recorded history has the shapes `SbtShape` and meets `FamilyGuard` given the same-type guard and
+    pair-alignment of the recorded steps -/
+theorem setBlockType_appended (S : Schema) (htr : compatTransB S = true) (hts : TextLoop S)
+    (tr tr1 : Tr) (f t : Nat) (ty : TypeId) (attrs : Attrs)
+    (hlen : tr.steps.length = tr.docs.length) (hml : tr.maps.length = tr.steps.length)
+    (hn : fnorm tr.doc.kids = true)
+    (hty : (S.nodeType ty).isLeaf = false) (hp : S.plainType ty = true)
+    (hblocks : sbtBlocksOk S tr.doc f t ty)
+    (h : tr.runOp S (.setBlockType f t ty attrs) = some tr1) :
+    HistAll (fun s d _ => SbtShape (sbtBad S tr.doc f t ty) s d) (appended tr tr1) tr1.doc ∧
+    (FamilyInv S tr.doc →
+      HistAll (fun s d d' => s.sameTypeGuard S d ∧ s.undoAligned d') (appended tr tr1) tr1.doc →
+      HistAll (FamilyGuard S) (appended tr tr1) tr1.doc) := by
+  obtain ⟨st', hs, rfl⟩ := Tr.planned_some (run := fun st => st.setBlockTypeF S f t ty attrs) h
+  obtain ⟨sk, hfold⟩ := setBlockTypeF_plain_fold S tr st' f t ty attrs hp hs
+  have hI : SbtInv (ftoks tr.doc.kids) tr.steps.length ({ tr := tr } : PSt) 0 [] :=
+    { toks := by simp
+      maps := by
+        intro p _
+        rw [List.drop_of_length_le (by simp only; omega)]
+        simp [mapsThrough]
+      fits := rfl
+      mf_le := by simp only; omega
+      skip_le := Nat.zero_le _
+      norm := hn }
+  obtain ⟨h2, e, _, _, _, s2, g2⟩ := sbt_fold_guard S htr hts ty attrs tr.steps.length (ftoks tr.doc.kids) hty hp
+    (sbtBad S tr.doc f t ty) (S.docVisits tr.doc f t) { tr := tr } 0 [] { tr := st'.tr } sk
+    (fun v hv => by
+      obtain ⟨h1, h2⟩ := docVisits_window S tr.doc f t v hv
+      exact ⟨h1, h2 hn, fun htb => ⟨(hblocks v hv htb).1, (hblocks v hv htb).2,
+        fun c hc x hx => ⟨v, hv, htb, c, hc, hx⟩⟩⟩)
+    hI hlen hfold
+  rw [appended_eq e]
+  exact ⟨s2, g2⟩
+
+/-- **`set_block_type` to a plain type needs no hypothesis on the shape of its recorded steps**: for a
+    transform whose current document is valid and in normal form, a non-leaf plain target type
+    (`Schema.plainType`: the Fitter is never consulted) and visited textblocks that are nodes with content
+    whose marked-and-forbidden children are texts or leaves (`sbtBlocksOk`), `OpResidual` — what
+    `opHistory_undo` asks of the operation, the full `FamilyGuard` of every recorded step — follows from what
+    is asked of a mark operation: the same-type guard (finding C04-same-type-mark-order) and pair-alignment
+    of the recorded steps.  (The recorded steps, visit by visit at mapped positions: the `RemoveMarkStep`s of
+    `clear_incompatible` — `clearRm_planGuard`; its `ReplaceStep`s — `clearEditsGuard_family`; no filler
+    step; the retype step — `setBlockTypeGuard_family`; validity and normal form are carried through by
+    `family_step`.) -/
+theorem setBlockType_residual (S : Schema) (htr : compatTransB S = true) (hts : TextLoop S)
+    (tr tr1 : Tr) (f t : Nat) (ty : TypeId) (attrs : Attrs)
+    (hlen : tr.steps.length = tr.docs.length) (hml : tr.maps.length = tr.steps.length)
+    (hI : FamilyInv S tr.doc)
+    (hty : (S.nodeType ty).isLeaf = false) (hp : S.plainType ty = true)
+    (hblocks : sbtBlocksOk S tr.doc f t ty)
+    (h : tr.runOp S (.setBlockType f t ty attrs) = some tr1)
+    (hres : HistAll (fun s d d' => s.sameTypeGuard S d ∧ s.undoAligned d') (appended tr tr1) tr1.doc) :
+    OpResidual S (.setBlockType f t ty attrs) tr tr1 :=
+  (setBlockType_appended S htr hts tr tr1 f t ty attrs hlen hml hI.2 hty hp hblocks h).2 hI hres
+
+/-- the steps `set_block_type` records keep "no text outside the Basic Multilingual Plane" -/
+theorem sbtShape_bmp (S : Schema) (bad : Mark → Prop) (s : Step) (d d' : Node) (hs : SbtShape bad s d)
+    (h : S.apply s d = .ok d') (hb : bmpDoc d = true) : bmpDoc d' = true := by
+  rcases hs with ⟨a, b, x, rfl, _⟩ | ⟨a, b, c, rfl, hc⟩ | ⟨p, node, ty, a, m, rfl, hna, hnl⟩
+  · exact (bmp_step S _ d d' (.inl ⟨a, b, x, rfl⟩) hb h).1
+  · obtain ⟨e, _, _, _⟩ := apply_replace_toks S d d' a b _ false h
+    unfold bmpDoc at hb ⊢
+    rw [List.all_eq_true] at hb hc ⊢
+    intro x hx
+    rw [e, Slice.toks_closed] at hx
+    simp only [List.mem_append] at hx
+    rcases hx with (hx | hx) | hx
+    · exact hb x (List.mem_of_mem_take hx)
+    · exact hc x hx
+    · exact hb x (List.mem_of_mem_drop hx)
+  · exact bmp_of_keeps_content d d' (retype_keeps_content S d d' node p ty a m hna hnl h) hb
+
+/-- a step that is no `RemoveMarkStep` has no same-type guard -/
+theorem sbtShape_sameType (S : Schema) (bad : Mark → Prop) (hno : ∀ x, ¬ bad x) (s : Step) (d : Node)
+    (hs : SbtShape bad s d) : s.sameTypeGuard S d := by
+  rcases hs with ⟨a, b, x, rfl, hx⟩ | ⟨a, b, c, rfl, _⟩ | ⟨p, node, ty, a, m, rfl, _, _⟩
+  · exact absurd hx (hno x)
+  · trivial
+  · trivial
+
+/-- the four structural edits, `set_node_markup` and `set_block_type` -/
+def structuralOp' : Op → Bool
+  | .setBlockType .. => true
+  | op => structuralOp op
+
+/-- what is asked of an operation of the extended structural class — operation-level facts, decidable from
+    the current document and the operation's arguments.  `set_block_type(from, to, type, attrs)`: a non-leaf
+    plain target type; every visited textblock a node with content whose children carrying a mark the type
+    forbids are texts or leaves (`sbtBlocksOk`); and either no visited textblock has a child with a mark the
+    new type forbids (nothing is stripped: no `RemoveMarkStep` is recorded), or the recorded steps meet the
+    same-type guard of finding C04-same-type-mark-order (as asked of `remove_mark`). -/
+def StructResidual' (S : Schema) (op : Op) (tr tr1 : Tr) : Prop :=
+  match op with
+  | .setBlockType f t ty _ => (S.nodeType ty).isLeaf = false ∧ S.plainType ty = true ∧
+      sbtBlocksOk S tr.doc f t ty ∧
+      ((∀ x, ¬ sbtBad S tr.doc f t ty x) ∨
+        HistAll (fun s d _ => s.sameTypeGuard S d) (appended tr tr1) tr1.doc)
+  | op => StructResidual S op tr tr1
+
+/-- one operation of the extended structural class on a BMP document: `OpResidual` holds and the new
+    document is again BMP -/
+theorem structOp_residual' (S : Schema) (htr : compatTransB S = true) (hts : TextLoop S)
+    (op : Op) (tr tr1 : Tr) (hop : structuralOp' op = true)
+    (hlen : tr.steps.length = tr.docs.length) (hml : tr.maps.length = tr.steps.length)
+    (hI : FamilyInv S tr.doc) (hb : bmpDoc tr.doc = true)
+    (h : tr.runOp S op = some tr1) (hres : StructResidual' S op tr tr1) :
+    OpResidual S op tr tr1 ∧ bmpDoc tr1.doc = true := by
+  have old : ∀ (hop : structuralOp op = true) (hres : StructResidual S op tr tr1),
+      OpResidual S op tr tr1 ∧ bmpDoc tr1.doc = true := by
+    intro hop hres
+    obtain ⟨st, e, ha, hk⟩ := structOp_step S op tr tr1 hop hlen h hres
+    have hb1 : bmpDoc tr1.doc = true := bmp_of_keeps_content _ _ hk hb
+    have hal : HistAll (fun s _ d' => s.undoAligned d') (appended tr tr1) tr1.doc := by
+      rw [appended_eq e]
+      exact ⟨undoAligned_of_bmp st tr1.doc hb1, trivial⟩
+    refine ⟨?_, hb1⟩
+    cases op with
+    | split pos depth => exact hal
+    | join pos depth => exact hal
+    | lift a b depth target => exact ⟨hres, hal⟩
+    | wrap a b depth ws => exact ⟨hres.1, hres.2, hal⟩
+    | setNodeMarkup pos ty attrs marks => exact ⟨hres, hal⟩
+    | step => simp [structuralOp] at hop
+    | replace => simp [structuralOp] at hop
+    | mark => simp [structuralOp] at hop
+    | addNodeMark => simp [structuralOp] at hop
+    | removeNodeMark => simp [structuralOp] at hop
+    | setNodeAttribute => simp [structuralOp] at hop
+    | setBlockType => simp [structuralOp] at hop
+  cases op with
+  | setBlockType f t ty attrs =>
+    obtain ⟨hty, hp, hblocks, hst⟩ := hres
+    obtain ⟨shape, g⟩ := setBlockType_appended S htr hts tr tr1 f t ty attrs hlen hml hI.2 hty hp hblocks h
+    obtain ⟨h2, e1, _, n1, r1⟩ := (Tr.runOp_grows _ h).hist hlen
+    rw [appended_eq e1] at shape g hst
+    have hbs : HistAll (fun _ _ d' => bmpDoc d' = true) h2 tr1.doc :=
+      histAll_of_inv S (fun d => bmpDoc d = true) (fun s d _ => SbtShape (sbtBad S tr.doc f t ty) s d)
+        (fun _ _ d' => bmpDoc d' = true)
+        (fun s d d' hbd ha hs => ⟨sbtShape_bmp S _ s d d' hs ha hbd, sbtShape_bmp S _ s d d' hs ha hbd⟩)
+        h2 tr1.doc (by rw [n1]; exact hb) r1 shape
+    have hb1 : bmpDoc tr1.doc = true :=
+      inv_fin_of_hist S (fun d => bmpDoc d = true) (fun s d _ => SbtShape (sbtBad S tr.doc f t ty) s d)
+        (fun s d d' hbd ha hs => sbtShape_bmp S _ s d d' hs ha hbd) h2 tr1.doc (by rw [n1]; exact hb) r1 shape
+    have hsame : HistAll (fun s d _ => s.sameTypeGuard S d) h2 tr1.doc := by
+      rcases hst with hno | hst
+      · exact histAll_mono (fun s d _ hs => sbtShape_sameType S _ hno s d hs) _ _ shape
+      · exact hst
+    refine ⟨?_, hb1⟩
+    show HistAll (FamilyGuard S) (appended tr tr1) tr1.doc
+    rw [appended_eq e1]
+    exact g hI (histAll_and _ _ hsame (histAll_undoAligned_of_bmp _ _ hbs))
+  | split pos depth => exact old hop hres
+  | join pos depth => exact old hop hres
+  | lift a b depth target => exact old hop hres
+  | wrap a b depth ws => exact old hop hres
+  | setNodeMarkup pos ty attrs marks => exact old hop hres
+  | step => simp [structuralOp', structuralOp] at hop
+  | replace => simp [structuralOp', structuralOp] at hop
+  | mark => simp [structuralOp', structuralOp] at hop
+  | addNodeMark => simp [structuralOp', structuralOp] at hop
+  | removeNodeMark => simp [structuralOp', structuralOp] at hop
+  | setNodeAttribute => simp [structuralOp', structuralOp] at hop
+
+/-- on a document without text outside the BMP, a run of operations of the extended structural class meets
+    `OpResidual` -/
+theorem structOps_residual' (S : Schema) (htr : compatTransB S = true) (hts : TextLoop S) :
+    ∀ (ops : List Op) (tr : Tr), tr.steps.length = tr.docs.length → tr.maps.length = tr.steps.length →
+    FamilyInv S tr.doc → bmpDoc tr.doc = true →
+    (∀ op ∈ ops, structuralOp' op = true) → OpsAll S (StructResidual' S) tr ops → OpsAll S (OpResidual S) tr ops
+  | [], _, _, _, _, _, _, _ => trivial
+  | op :: ops, tr, hlen, hml, hI, hb, hall, hres => by
+    simp only [OpsAll] at hres ⊢
+    cases h1 : tr.runOp S op with
+    | none => trivial
+    | some tr1 =>
+      simp only [h1] at hres ⊢
+      have hop := hall op (List.mem_cons_self ..)
+      obtain ⟨hr1, hb1⟩ := structOp_residual' S htr hts op tr tr1 hop hlen hml hI hb h1 hres.1
+      refine ⟨hr1, ?_⟩
+      obtain ⟨h2, e1, l1, n1, r1⟩ := (Tr.runOp_grows op h1).hist hlen
+      have g1 := op_family S op tr tr1 hlen hI h1 hr1
+      rw [appended_eq e1] at g1
+      have hI1 : FamilyInv S tr1.doc :=
+        (chain_of_invariant S (FamilyInv S) (FamilyGuard S) (family_step S htr hts) h2 tr1.doc
+          (by rw [n1]; exact hI) r1 g1).2
+      exact structOps_residual' S htr hts ops tr1 l1 ((Tr.runOp_grows op h1).maps_len hml) hI1 hb1
+        (fun o ho => hall o (List.mem_cons_of_mem _ ho)) hres.2
+
+/-- **a history of structural edits, `set_node_markup` and `set_block_type` to plain types is undone exactly**
+    (extends `structHistory_undo_bmp`): schema with transitive `compatible_content` and `TextLoop`; `doc`
+    valid, in normal form, no text outside the Basic Multilingual Plane; per operation the operation-level
+    facts `StructResidual'`.  For `set_block_type` that strips no marks, and for the five other kinds, no
+    hypothesis on the recorded steps is left; for a `set_block_type` that strips marks the same-type guard
+    of its `RemoveMarkStep`s (finding C04-same-type-mark-order) is. -/
+theorem structHistory_undo_bmp' (S : Schema) (htr : compatTransB S = true) (hts : TextLoop S)
+    (doc : Node) (ops : List Op) (tr' : Tr) (hd : S.checkNode doc = true) (hn : fnorm doc.kids = true)
+    (hb : bmpDoc doc = true) (hall : ∀ op ∈ ops, structuralOp' op = true)
+    (h : (Tr.init doc).runOps S ops = some tr')
+    (hres : OpsAll S (StructResidual' S) (Tr.init doc) ops) :
+    tr'.undo S = .ok doc ∧ FamilyInv S tr'.doc :=
+  opHistory_undo S htr hts doc ops tr' hd hn h
+    (structOps_residual' S htr hts ops (Tr.init doc) rfl rfl ⟨hd, hn⟩ hb hall hres)
+
+
+/-! ### node-level operations and `Transform.replace` as whole operations (work package `wk-sbt`) -/
+
+mutual
+theorem attrsOk_eq_exact (S : Schema) : ∀ n : Node, attrsOk S n = attrsExact S n
+  | .text .. => rfl
+  | .leaf .. => rfl
+  | .elem t a m kids => by
+    simp only [attrsOk, attrsExact, attrsOkKids_eq_exact S kids]
+    cases computeAttrs (S.nodeType t).attrs a <;> rfl
+theorem attrsOkKids_eq_exact (S : Schema) : ∀ l : List Node, attrsOkKids S l = attrsExactKids S l
+  | [] => rfl
+  | n :: ns => by simp only [attrsOkKids, attrsExactKids, attrsOk_eq_exact S n, attrsOkKids_eq_exact S ns]
+end
+
+theorem uniqueMarkTypes_spec (ms : Marks) (h : uniqueMarkTypes ms = true) :
+    ∀ x ∈ ms, ∀ y ∈ ms, x.ty = y.ty → x = y := by
+  intro x hx y hy hty
+  simp only [uniqueMarkTypes, List.all_eq_true, Bool.or_eq_true, bne_iff_ne, ne_eq, beq_iff_eq] at h
+  rcases h x hx y hy with h | h
+  · exact absurd hty h
+  · exact h
+
+/-- **the executable guard of PM/OpGuardNode.lean implies `FamilyGuard`** (node-level steps; the driver request
+    `nodeStepGuard` evaluates it on recorded steps of real histories) -/
+theorem nodeStepGuardB_family (S : Schema) (s : Step) (d d' : Node) (h : nodeStepGuardB S s d = true) :
+    FamilyGuard S s d d' := by
+  cases s with
+  | attr pos name value =>
+    simp only [nodeStepGuardB, nodeStepGuardParts, Bool.and_true] at h
+    show attrsOk S d = true
+    rw [attrsOk_eq_exact]; exact h
+  | docAttr name value =>
+    simp only [nodeStepGuardB, nodeStepGuardParts, Bool.and_true] at h
+    show attrsOk S d = true
+    rw [attrsOk_eq_exact]; exact h
+  | addNodeMark pos m =>
+    simp only [nodeStepGuardB, nodeStepGuardParts] at h
+    cases hn : d.nodeAt pos with
+    | error e =>
+      rw [hn] at h
+      simp only [Bool.and_true] at h
+      exact ⟨by rw [attrsOk_eq_exact]; exact h, fun n hn' => by simp [hn] at hn', fun n hn' => by simp [hn] at hn',
+        fun n hn' => by simp [hn] at hn'⟩
+    | ok o =>
+      cases o with
+      | none =>
+        rw [hn] at h
+        simp only [Bool.and_true] at h
+        exact ⟨by rw [attrsOk_eq_exact]; exact h, fun n hn' => by simp [hn] at hn',
+          fun n hn' => by simp [hn] at hn', fun n hn' => by simp [hn] at hn'⟩
+      | some n =>
+        rw [hn] at h
+        simp only [Bool.and_eq_true, decide_eq_true_eq, List.all_eq_true, Bool.or_eq_true,
+          Bool.not_eq_true'] at h
+        obtain ⟨⟨⟨h1, h2⟩, h3⟩, h4⟩ := h
+        refine ⟨by rw [attrsOk_eq_exact]; exact h1, ?_, ?_, ?_⟩
+        · intro n' hn'
+          rw [hn] at hn'
+          simp only [Except.ok.injEq, Option.some.injEq] at hn'
+          subst hn'; exact h2
+        · intro n' hn'
+          rw [hn] at hn'
+          simp only [Except.ok.injEq, Option.some.injEq] at hn'
+          subst hn'; exact uniqueMarkTypes_spec _ h3
+        · intro n' hn' x hx hex
+          rw [hn] at hn'
+          simp only [Except.ok.injEq, Option.some.injEq] at hn'
+          subst hn'
+          rcases h4 x hx with h | h
+          · rw [hex] at h; cases h
+          · exact h
+  | removeNodeMark pos m =>
+    simp only [nodeStepGuardB, nodeStepGuardParts] at h
+    cases hn : d.nodeAt pos with
+    | error e =>
+      rw [hn] at h
+      simp only [Bool.and_true] at h
+      exact ⟨by rw [attrsOk_eq_exact]; exact h, fun n hn' => by simp [hn] at hn'⟩
+    | ok o =>
+      cases o with
+      | none =>
+        rw [hn] at h
+        simp only [Bool.and_true] at h
+        exact ⟨by rw [attrsOk_eq_exact]; exact h, fun n hn' => by simp [hn] at hn'⟩
+      | some n =>
+        rw [hn] at h
+        simp only [Bool.and_eq_true, Bool.and_true] at h
+        refine ⟨by rw [attrsOk_eq_exact]; exact h.1, ?_⟩
+        intro n' hn'
+        rw [hn] at hn'
+        simp only [Except.ok.injEq, Option.some.injEq] at hn'
+        subst hn'; exact uniqueMarkTypes_spec _ h.2
+  | replace => simp [nodeStepGuardB, nodeStepGuardParts] at h
+  | replaceAround => simp [nodeStepGuardB, nodeStepGuardParts] at h
+  | addMark => simp [nodeStepGuardB, nodeStepGuardParts] at h
+  | removeMark => simp [nodeStepGuardB, nodeStepGuardParts] at h
+
+/-- the node-level operations: `add_node_mark`, `remove_node_mark`, `set_node_attribute` -/
+def nodeLevelOp : Op → Bool
+  | .addNodeMark .. => true
+  | .removeNodeMark .. => true
+  | .setNodeAttribute .. => true
+  | _ => false
+
+/-- **what is asked of a node-level operation**, on the current document `d` and the operation's arguments —
+    exactly the guards of `attr_undo` / `nodeMark_undo`:
+    * `set_node_attribute`: every node of `d` carries its attributes as `compute_attrs` builds them (`attrsOk`);
+    * `add_node_mark(pos, m)`: `attrsOk`; on the node at `pos`: `m.add_to_set` does not shrink the mark set, no two
+      different marks of one type, and every mark `m` excludes excludes `m` too (finding C04-node-mark-inverse);
+    * `remove_node_mark(pos, mark or mark type)`: `attrsOk`; no two different marks of one type on the node. -/
+def NodeOpGuard (S : Schema) (op : Op) (d : Node) : Prop :=
+  match op with
+  | .setNodeAttribute _ _ _ => attrsOk S d = true
+  | .addNodeMark pos m =>
+    attrsOk S d = true ∧
+    (∀ n, d.nodeAt pos = .ok (some n) → n.marks.length ≤ (m.addToSet S n.marks).length) ∧
+    (∀ n, d.nodeAt pos = .ok (some n) → ∀ x ∈ n.marks, ∀ y ∈ n.marks, x.ty = y.ty → x = y) ∧
+    (∀ n, d.nodeAt pos = .ok (some n) → ∀ x ∈ n.marks, S.excludes m.ty x.ty = true → S.excludes x.ty m.ty = true)
+  | .removeNodeMark pos _ =>
+    attrsOk S d = true ∧
+    (∀ n, d.nodeAt pos = .ok (some n) → ∀ x ∈ n.marks, ∀ y ∈ n.marks, x.ty = y.ty → x = y)
+  | _ => True
+
+/-- what a node-level operation records: nothing (`remove_node_mark` with a mark type the node does not carry), or
+    the one node-level step at the operation's position, which meets `FamilyGuard` under `NodeOpGuard` -/
+theorem nodeOp_hist (S : Schema) (op : Op) (tr tr1 : Tr) (hop : nodeLevelOp op = true)
+    (hlen : tr.steps.length = tr.docs.length) (h : tr.runOp S op = some tr1) :
+    (appended tr tr1 = [] ∧ tr1.doc = tr.doc) ∨
+    ∃ pos s, ((∃ m, s = Step.addNodeMark pos m) ∨ (∃ m, s = Step.removeNodeMark pos m) ∨
+        (∃ n v, s = Step.attr pos n v)) ∧
+      appended tr tr1 = [(s, tr.doc)] ∧ S.apply s tr.doc = .ok tr1.doc ∧
+      (NodeOpGuard S op tr.doc → FamilyGuard S s tr.doc tr1.doc) := by
+  cases op with
+  | setNodeAttribute pos name value =>
+    obtain ⟨e, ha⟩ := Tr.step_hist hlen (toOption_some h : tr.step S (.attr pos name value) = .ok tr1)
+    exact .inr ⟨pos, _, .inr (.inr ⟨name, value, rfl⟩), appended_eq e, ha, fun hg => hg⟩
+  | addNodeMark pos m =>
+    obtain ⟨e, ha⟩ := Tr.step_hist hlen (toOption_some h : tr.step S (.addNodeMark pos m) = .ok tr1)
+    exact .inr ⟨pos, _, .inl ⟨m, rfl⟩, appended_eq e, ha, fun hg => hg⟩
+  | removeNodeMark pos sel =>
+    have h' : tr.removeNodeMark S pos sel = .ok tr1 := toOption_some h
+    simp only [Tr.removeNodeMark] at h'
+    split at h'
+    · obtain ⟨e, ha⟩ := Tr.step_hist hlen h'
+      exact .inr ⟨pos, _, .inr (.inl ⟨_, rfl⟩), appended_eq e, ha, fun hg => hg⟩
+    · split at h'
+      · simp at h'
+      · simp at h'
+      · split at h'
+        · simp only [Except.ok.injEq] at h'
+          subst h'
+          exact .inl ⟨by simp [appended], rfl⟩
+        · obtain ⟨e, ha⟩ := Tr.step_hist hlen h'
+          exact .inr ⟨pos, _, .inr (.inl ⟨_, rfl⟩), appended_eq e, ha, fun hg => hg⟩
+  | step => simp [nodeLevelOp] at hop
+  | replace => simp [nodeLevelOp] at hop
+  | mark => simp [nodeLevelOp] at hop
+  | split => simp [nodeLevelOp] at hop
+  | join => simp [nodeLevelOp] at hop
+  | lift => simp [nodeLevelOp] at hop
+  | wrap => simp [nodeLevelOp] at hop
+  | setNodeMarkup => simp [nodeLevelOp] at hop
+  | setBlockType => simp [nodeLevelOp] at hop
+
+/-- **node-level operations need only operation-level hypotheses**: `OpResidual` — `FamilyGuard` of the steps
+    the operation recorded — follows from `NodeOpGuard` on the current document and the operation's arguments
+    (the one recorded step is the `AttrStep` / `AddNodeMarkStep` / `RemoveNodeMarkStep` at the same position;
+    `remove_node_mark` with a mark type records the step for the first mark of that type, or nothing) -/
+theorem nodeOps_residual (S : Schema) (op : Op) (tr tr1 : Tr) (hop : nodeLevelOp op = true)
+    (hlen : tr.steps.length = tr.docs.length) (h : tr.runOp S op = some tr1)
+    (hg : NodeOpGuard S op tr.doc) : OpResidual S op tr tr1 := by
+  have key : HistAll (FamilyGuard S) (appended tr tr1) tr1.doc := by
+    rcases nodeOp_hist S op tr tr1 hop hlen h with ⟨e, _⟩ | ⟨pos, s, _, e, _, g⟩
+    · rw [e]; trivial
+    · rw [e]; exact ⟨g hg, trivial⟩
+  cases op with
+  | setNodeAttribute pos name value => exact key
+  | addNodeMark pos m => exact key
+  | removeNodeMark pos sel => exact key
+  | step => simp [nodeLevelOp] at hop
+  | replace => simp [nodeLevelOp] at hop
+  | mark => simp [nodeLevelOp] at hop
+  | split => simp [nodeLevelOp] at hop
+  | join => simp [nodeLevelOp] at hop
+  | lift => simp [nodeLevelOp] at hop
+  | wrap => simp [nodeLevelOp] at hop
+  | setNodeMarkup => simp [nodeLevelOp] at hop
+  | setBlockType => simp [nodeLevelOp] at hop
+
+/-- a node-level step keeps "no text outside the Basic Multilingual Plane" -/
+theorem nodeStep_bmp (S : Schema) (d d' : Node) (pos : Nat) (st : Step)
+    (hst : (∃ m, st = .addNodeMark pos m) ∨ (∃ m, st = .removeNodeMark pos m) ∨ (∃ n v, st = .attr pos n v))
+    (h : S.apply st d = .ok d') (hb : bmpDoc d = true) : bmpDoc d' = true := by
+  obtain ⟨h1, h2, h3, h4, _⟩ := apply_nodeStep_toks S d d' pos st hst h
+  unfold bmpDoc at hb ⊢
+  rw [List.all_eq_true] at hb ⊢
+  intro x hx
+  rw [← List.take_append_drop pos (ftoks d'.kids)] at hx
+  rcases List.mem_append.mp hx with hx | hx
+  · rw [h2] at hx; exact hb x (List.mem_of_mem_take hx)
+  · cases hd : (ftoks d'.kids).drop pos with
+    | nil => rw [hd] at hx; simp at hx
+    | cons y ys =>
+      rw [hd] at hx
+      have hy : (ftoks d'.kids).getD pos Tok.cl = y := by
+        rw [List.getD_eq_getElem?_getD, ← List.head?_drop, hd]; rfl
+      have hys : ys = (ftoks d.kids).drop (pos + 1) := by
+        rw [← h3, ← List.tail_drop, hd]; rfl
+      rcases List.mem_cons.mp hx with rfl | hx
+      · rw [← hy, noHigh_shape _ _ h4]
+        have hlt : pos < (ftoks d.kids).length := by rw [ftoks_length]; exact h1
+        rw [List.getD_eq_getElem?_getD, List.getElem?_eq_getElem hlt]
+        exact hb _ (List.getElem_mem hlt)
+      · rw [hys] at hx
+        exact hb x (List.mem_of_mem_drop hx)
+
+/-! #### `Transform.replace` with a non-empty slice -/
+
+/-- what is still asked of the step `Transform.replace(from, to, slice)` records: the normal form of the emitted
+    slice and the validity of its payload (for a `ReplaceAroundStep`: of the slice with the gap inserted — C11,
+    another work package is on it), and for a `ReplaceAroundStep` the fit guard `gapFitsBack` (the Fitter emits
+    replace-around steps whose gap is not clean but fits back: measured by the tie) -/
+def ReplaceResidual (S : Schema) (tr tr1 : Tr) : Prop :=
+  HistAll (fun s d _ =>
+    match s with
+    | .replace _ _ sl _ => fnorm sl.content = true ∧ C01.PayloadValid S d s
+    | .replaceAround f t gf gt sl _ _ =>
+      fnorm sl.content = true ∧ C01.PayloadValid S d s ∧ gapFitsBack S d f t gf gt = true
+    | _ => True) (appended tr tr1) tr1.doc
+
+/-- **`Transform.replace(from, to, slice)` as a whole operation, partial**: `OpResidual` — the full `FamilyGuard`
+    of the recorded step — follows from `ReplaceResidual` (normal form and payload validity of the emitted slice;
+    `gapFitsBack` for a replace-around step) when the resulting document has no text outside the BMP (then the
+    inverse's cuts are pair-aligned).  Discharged here: the shape of a replace-around step the Fitter emits
+    (`sl.wf`, `insert ≤ slice.size`, ordered gap: C11 `fit_emits_wf`; its structure flag is never set:
+    `replaceStep_range`), pair-alignment; that `Step.invert` does not raise is no hypothesis of `family_step`
+    (`invert_ok_of_apply`).
+    Full statement (not proved): no `ReplaceResidual` — needs C11 `fit_emits_valid_payload` for insertions and a
+    proof that the Fitter's replace-around steps satisfy `gapFitsBack`. -/
+theorem replace_residual_partial (S : Schema) (hdet : PM.C11.detB S = true) (hfill : S.fillersOKB = true)
+    (hwrap : S.wrapOKB = true) (hlab : S.labelsOKB = true)
+    (tr tr1 : Tr) (hlen : tr.steps.length = tr.docs.length) (hv : C01.Valid S tr.doc)
+    (hattrs : S.nodeAttrsOK tr.doc = true) (f t : Nat) (sl : Slice) (hreq : sl.wf = true) (hft : f ≤ t)
+    (hrun : unplacedWfRun S tr.doc f t sl = true) (hb : bmpDoc tr1.doc = true)
+    (h : tr.runOp S (.replace f t sl) = some tr1) (hres : ReplaceResidual S tr tr1) :
+    OpResidual S (.replace f t sl) tr tr1 := by
+  have h' : tr.planned (fun st => st.replaceF S f t sl) = some tr1 := h
+  obtain ⟨st', hrun', htr⟩ := Tr.planned_some h'
+  obtain ⟨r, hr, hstep⟩ := PSt.replaceF_spec S { tr := tr } st' f t sl hrun'
+  simp only at hr hstep
+  show HistAll (FamilyGuard S) (appended tr tr1) tr1.doc
+  cases r with
+  | none =>
+    simp only at hstep
+    have e : tr1.hist = tr.hist ++ [] := by rw [← htr, hstep]; simp
+    rw [appended_eq e]
+    trivial
+  | some s =>
+    simp only at hstep
+    rw [htr] at hstep
+    obtain ⟨e, _⟩ := Tr.step_hist hlen hstep
+    unfold ReplaceResidual at hres
+    rw [appended_eq e] at hres ⊢
+    refine ⟨?_, trivial⟩
+    have hs := hres.1
+    have hal := undoAligned_of_bmp s tr1.doc hb
+    rcases replaceStep_range S tr.doc f t sl s hr with ⟨T, sl', rfl, _⟩ | ⟨T, G2, sl', ins, rfl, _⟩
+    · exact ⟨hs.1, hs.2, hal⟩
+    · obtain ⟨_, hsh⟩ := PM.C11.fit_emits_wf S hdet hfill hwrap hlab tr.doc f t sl hv hattrs hreq hft hrun _ hr
+      have hshape := hsh _ _ _ _ _ _ _ rfl
+      simp only [aroundShape, Bool.and_eq_true, decide_eq_true_eq] at hshape
+      obtain ⟨⟨⟨⟨hwf, hins⟩, g1⟩, g2⟩, g3⟩ := hshape
+      exact ⟨hs.1, hwf, hins, ⟨g1, g2, g3⟩, hs.2.1, fun hb' => by simp at hb', hs.2.2, hal⟩
+
+/-! #### histories mixing structural edits, node-level edits and mark operations -/
+
+/-- structural edits, `set_node_markup`, `set_block_type`; node-level edits; `add_mark` / `remove_mark` -/
+def mixedOp : Op → Bool
+  | .mark _ => true
+  | op => structuralOp' op || nodeLevelOp op
+
+/-- what is asked of an operation of a mixed history: operation-level facts only, except for the same-type
+    guard (finding C04-same-type-mark-order) of the `RemoveMarkStep`s recorded by `remove_mark` (and by a
+    `set_block_type` that strips marks).
+    * `add_mark` / `remove_mark`: no inline node with content (`flatInline`), same-type guard;
+    * node-level edits: `NodeOpGuard`;
+    * the others: `StructResidual'`. -/
+def MixedResidual (S : Schema) (op : Op) (tr tr1 : Tr) : Prop :=
+  match op with
+  | .mark _ => flatInline S tr.doc = true ∧
+      HistAll (fun s d _ => s.sameTypeGuard S d) (appended tr tr1) tr1.doc
+  | .addNodeMark .. => NodeOpGuard S op tr.doc
+  | .removeNodeMark .. => NodeOpGuard S op tr.doc
+  | .setNodeAttribute .. => NodeOpGuard S op tr.doc
+  | op => StructResidual' S op tr tr1
+
+/-- one operation of a mixed history on a BMP document: `OpResidual` holds and the new document is again BMP -/
+theorem mixedOp_residual (S : Schema) (htr : compatTransB S = true) (hts : TextLoop S)
+    (op : Op) (tr tr1 : Tr) (hop : mixedOp op = true)
+    (hlen : tr.steps.length = tr.docs.length) (hml : tr.maps.length = tr.steps.length)
+    (hI : FamilyInv S tr.doc) (hb : bmpDoc tr.doc = true)
+    (h : tr.runOp S op = some tr1) (hres : MixedResidual S op tr tr1) :
+    OpResidual S op tr tr1 ∧ bmpDoc tr1.doc = true := by
+  have nodeCase : nodeLevelOp op = true → NodeOpGuard S op tr.doc →
+      OpResidual S op tr tr1 ∧ bmpDoc tr1.doc = true := by
+    intro hn hg
+    refine ⟨nodeOps_residual S op tr tr1 hn hlen h hg, ?_⟩
+    rcases nodeOp_hist S op tr tr1 hn hlen h with ⟨_, e⟩ | ⟨pos, s, hk, _, ha, _⟩
+    · rw [e]; exact hb
+    · exact nodeStep_bmp S tr.doc tr1.doc pos s hk ha hb
+  cases op with
+  | mark o =>
+    obtain ⟨hflat, hty⟩ := hres
+    obtain ⟨h2, e, _, n, r, g⟩ := Tr.markOp_hist S tr tr1 o hlen hI.1 hflat (toOption_some h)
+    rw [appended_eq e] at hty
+    have hal : HistAll (fun s _ d' => s.undoAligned d') h2 tr1.doc :=
+      histAll_of_inv S (fun d => bmpDoc d = true) (PlanGuard S) (fun s _ d' => s.undoAligned d')
+        (fun s d d' hbd ha hg => (bmp_step S s d d' (planGuard_isMark S s d d' hg) hbd ha).symm)
+        h2 tr1.doc (by rw [n]; exact hb) r g
+    have hb1 : bmpDoc tr1.doc = true :=
+      inv_fin_of_hist S (fun d => bmpDoc d = true) (PlanGuard S)
+        (fun s d d' hbd ha hg => (bmp_step S s d d' (planGuard_isMark S s d d' hg) hbd ha).1)
+        h2 tr1.doc (by rw [n]; exact hb) r g
+    refine ⟨⟨hflat, ?_⟩, hb1⟩
+    rw [appended_eq e]
+    exact histAll_and _ _ hty hal
+  | addNodeMark pos m => exact nodeCase rfl hres
+  | removeNodeMark pos sel => exact nodeCase rfl hres
+  | setNodeAttribute pos name value => exact nodeCase rfl hres
+  | split pos depth => exact structOp_residual' S htr hts _ tr tr1 rfl hlen hml hI hb h hres
+  | join pos depth => exact structOp_residual' S htr hts _ tr tr1 rfl hlen hml hI hb h hres
+  | lift a b depth target => exact structOp_residual' S htr hts _ tr tr1 rfl hlen hml hI hb h hres
+  | wrap a b depth ws => exact structOp_residual' S htr hts _ tr tr1 rfl hlen hml hI hb h hres
+  | setNodeMarkup pos ty attrs marks => exact structOp_residual' S htr hts _ tr tr1 rfl hlen hml hI hb h hres
+  | setBlockType f t ty attrs => exact structOp_residual' S htr hts _ tr tr1 rfl hlen hml hI hb h hres
+  | step => simp [mixedOp, structuralOp', structuralOp, nodeLevelOp] at hop
+  | replace => simp [mixedOp, structuralOp', structuralOp, nodeLevelOp] at hop
+
+/-- on a BMP document, a mixed run meets `OpResidual` -/
+theorem mixedOps_residual (S : Schema) (htr : compatTransB S = true) (hts : TextLoop S) :
+    ∀ (ops : List Op) (tr : Tr), tr.steps.length = tr.docs.length → tr.maps.length = tr.steps.length →
+    FamilyInv S tr.doc → bmpDoc tr.doc = true →
+    (∀ op ∈ ops, mixedOp op = true) → OpsAll S (MixedResidual S) tr ops → OpsAll S (OpResidual S) tr ops
+  | [], _, _, _, _, _, _, _ => trivial
+  | op :: ops, tr, hlen, hml, hI, hb, hall, hres => by
+    simp only [OpsAll] at hres ⊢
+    cases h1 : tr.runOp S op with
+    | none => trivial
+    | some tr1 =>
+      simp only [h1] at hres ⊢
+      have hop := hall op (List.mem_cons_self ..)
+      obtain ⟨hr1, hb1⟩ := mixedOp_residual S htr hts op tr tr1 hop hlen hml hI hb h1 hres.1
+      refine ⟨hr1, ?_⟩
+      obtain ⟨h2, e1, l1, n1, r1⟩ := (Tr.runOp_grows op h1).hist hlen
+      have g1 := op_family S op tr tr1 hlen hI h1 hr1
+      rw [appended_eq e1] at g1
+      have hI1 : FamilyInv S tr1.doc :=
+        (chain_of_invariant S (FamilyInv S) (FamilyGuard S) (family_step S htr hts) h2 tr1.doc
+          (by rw [n1]; exact hI) r1 g1).2
+      exact mixedOps_residual S htr hts ops tr1 l1 ((Tr.runOp_grows op h1).maps_len hml) hI1 hb1
+        (fun o ho => hall o (List.mem_cons_of_mem _ ho)) hres.2
+
+/-- **a history mixing structural edits (`split`, `join`, `lift`, `wrap`, `set_node_markup`, `set_block_type` to
+    plain types), node-level edits (`add_node_mark`, `remove_node_mark`, `set_node_attribute`) and mark
+    operations is undone exactly**: schema with transitive `compatible_content` and `TextLoop`; `doc` valid,
+    in normal form, no text outside the BMP; per operation `MixedResidual` — facts about the current document
+    and the operation's arguments, plus the same-type guard where `RemoveMarkStep`s are recorded. -/
+theorem mixedHistory_undo_bmp (S : Schema) (htr : compatTransB S = true) (hts : TextLoop S)
+    (doc : Node) (ops : List Op) (tr' : Tr) (hd : S.checkNode doc = true) (hn : fnorm doc.kids = true)
+    (hb : bmpDoc doc = true) (hall : ∀ op ∈ ops, mixedOp op = true)
+    (h : (Tr.init doc).runOps S ops = some tr')
+    (hres : OpsAll S (MixedResidual S) (Tr.init doc) ops) :
+    tr'.undo S = .ok doc ∧ FamilyInv S tr'.doc :=
+  opHistory_undo S htr hts doc ops tr' hd hn h
+    (mixedOps_residual S htr hts ops (Tr.init doc) rfl rfl ⟨hd, hn⟩ hb hall hres)
+
+/-! #### decidable forms of the operation-level hypotheses, non-vacuity -/
+
+/-- `sbtBlocksOk` is decidable from the document and the operation's arguments -/
+instance (S : Schema) (d : Node) (f t : Nat) (ty : TypeId) : Decidable (sbtBlocksOk S d f t ty) := by
+  unfold sbtBlocksOk; infer_instance
+
+/-- executable form of "the operation strips no mark": no child of a visited textblock carries a mark the new
+    type forbids -/
+def sbtNoStripB (S : Schema) (d : Node) (f t : Nat) (ty : TypeId) : Bool :=
+  (S.docVisits d f t).all (fun v => !S.isTextblockN v.node ||
+    v.node.kids.all (fun c => (badMarks S ty c.marks).isEmpty))
+
+theorem sbtNoStripB_spec (S : Schema) (d : Node) (f t : Nat) (ty : TypeId) (h : sbtNoStripB S d f t ty = true) :
+    ∀ x, ¬ sbtBad S d f t ty x := by
+  intro x ⟨v, hv, htb, c, hc, hx⟩
+  simp only [sbtNoStripB, List.all_eq_true, Bool.or_eq_true, Bool.not_eq_true', List.isEmpty_iff] at h
+  rcases h v hv with h | h
+  · rw [htb] at h; cases h
+  · rw [h c hc] at hx; cases hx
+
+/-- the step a node-level operation records, as far as its guard is concerned (for `remove_node_mark` with a mark
+    type the guard does not depend on the mark found) -/
+def opNodeStep : Op → Option Step
+  | .addNodeMark pos m => some (.addNodeMark pos m)
+  | .removeNodeMark pos (.inl m) => some (.removeNodeMark pos m)
+  | .removeNodeMark pos (.inr t) => some (.removeNodeMark pos ⟨t, []⟩)
+  | .setNodeAttribute pos n v => some (.attr pos n v)
+  | _ => none
+
+/-- **`NodeOpGuard` is decidable**: it is implied by the executable guard `nodeStepGuardB` (PM/OpGuardNode.lean,
+    evaluated by the tie on real documents) of the operation's step on the current document -/
+theorem nodeOpGuard_of_B (S : Schema) (op : Op) (d : Node) (s : Step) (hs : opNodeStep op = some s)
+    (h : nodeStepGuardB S s d = true) : NodeOpGuard S op d := by
+  have g := nodeStepGuardB_family S s d d h
+  cases op with
+  | addNodeMark pos m =>
+    simp only [opNodeStep, Option.some.injEq] at hs; subst hs; exact g
+  | removeNodeMark pos sel =>
+    cases sel with
+    | inl m => simp only [opNodeStep, Option.some.injEq] at hs; subst hs; exact g
+    | inr t => simp only [opNodeStep, Option.some.injEq] at hs; subst hs; exact g
+  | setNodeAttribute pos n v =>
+    simp only [opNodeStep, Option.some.injEq] at hs; subst hs; exact g
+  | step => simp [opNodeStep] at hs
+  | replace => simp [opNodeStep] at hs
+  | mark => simp [opNodeStep] at hs
+  | split => simp [opNodeStep] at hs
+  | join => simp [opNodeStep] at hs
+  | lift => simp [opNodeStep] at hs
+  | wrap => simp [opNodeStep] at hs
+  | setNodeMarkup => simp [opNodeStep] at hs
+  | setBlockType => simp [opNodeStep] at hs
+
+/-! Non-vacuity of the operation-level hypotheses of `structHistory_undo_bmp'` for `set_block_type`: schema
+    `doc: (para|head)*`, `para: text*`, `head: text*` (two plain textblock types), document `doc(para("ab"))`,
+    `set_block_type(0, 4, head)`: the visited textblock is a node with content, nothing is stripped. -/
+private def sbNt (name : String) (dfa : Array DfaState) : NodeType :=
+  { name := name, isText := false, isInline := false, isLeaf := false, isAtom := false,
+    inlineContent := false, isolating := false, defining := false, code := false,
+    dfa := dfa, markSet := some [], attrs := [] }
+
+private def sbDoc : Node := .elem 0 [] [] [.elem 1 [] [] [.text [97, 98] []]]
+
+private def sbS : Schema :=
+  { nodes := #[
+      sbNt "doc" #[⟨true, [(1, 0), (2, 0)]⟩],
+      { sbNt "para" #[⟨true, [(3, 0)]⟩] with inlineContent := true },
+      { sbNt "head" #[⟨true, [(3, 0)]⟩] with inlineContent := true },
+      { sbNt "text" #[⟨true, []⟩] with isText := true, isInline := true, isLeaf := true, isAtom := true }],
+    marks := #[], top := 0, textTy := 3 }
+
+private theorem sb_visits : sbS.docVisits sbDoc 0 4 =
+    [⟨.elem 1 [] [] [.text [97, 98] []], 0, 0, 0⟩, ⟨.text [97, 98] [], 1, 1, 0⟩] := by
+  simp [Schema.docVisits, sbDoc, nodesBetweenP, Node.size, fsize, Node.kids, Schema.tyOf, Node.tyOr]
+
+example : (sbS.nodeType 2).isLeaf = false ∧ sbS.plainType 2 = true ∧ sbtBlocksOk sbS sbDoc 0 4 2 ∧
+    sbtNoStripB sbS sbDoc 0 4 2 = true ∧ bmpDoc sbDoc = true ∧ compatTransB sbS = true ∧
+    (sbS.docVisits sbDoc 0 4).any (fun v => sbS.isTextblockN v.node) = true := by
+  refine ⟨by decide, by decide, ?_, ?_, by decide, by decide, ?_⟩
+  · unfold sbtBlocksOk
+    rw [sb_visits]
+    decide
+  · unfold sbtNoStripB
+    rw [sb_visits]
+    decide
+  · rw [sb_visits]
+    decide
+
+/-- … and of `NodeOpGuard` through its executable form -/
+example : NodeOpGuard sbS (.setNodeAttribute 0 "x" "1") sbDoc :=
+  nodeOpGuard_of_B sbS _ sbDoc _ rfl (by decide)
 
 end PM.C04
